@@ -15,7 +15,8 @@ class Node:
     """
 
     def __init__(self, net: SimNet, idx: int, address: tuple | None = None, lan_address: tuple | None = None,
-                 curve: str = "curve25519", key_index: int | None = None, tunnel_endpoint: bool = False) -> None:
+                 curve: str = "curve25519", key_index: int | None = None, tunnel_endpoint: bool = False,
+                 dispatcher: str | None = None) -> None:
         from ipv8.peer import Peer
         from ipv8.peerdiscovery.network import Network
         self.net = net
@@ -24,9 +25,25 @@ class Node:
         self.raw_endpoint = SimEndpoint(net, self.address, lan_address)
         self.raw_endpoint.open_now()
         self.endpoint: Any = self.raw_endpoint
+        self.raw_endpoint6: Any = None
+        self.address6: tuple | None = None
+        if dispatcher is not None:
+            # the endpoint object production code gets from ipv8_service: a DispatcherEndpoint over one interface per
+            # address family ("v4": IPv4 only, "dual": IPv4 + IPv6), here with simulated interfaces
+            from ipv8.messaging.interfaces.dispatcher.endpoint import DispatcherEndpoint
+            disp = DispatcherEndpoint([])
+            disp.interfaces = {"UDPIPv4": self.raw_endpoint}
+            if dispatcher == "dual":
+                self.address6 = (f"2001:db8::{idx + 1:x}", 8000 + idx)
+                self.raw_endpoint6 = SimEndpoint(net, self.address6)
+                self.raw_endpoint6.open_now()
+                disp.interfaces["UDPIPv6"] = self.raw_endpoint6
+            disp.interface_order = [i for i in ("UDPIPv4", "UDPIPv6") if i in disp.interfaces]
+            disp._preferred_interface = self.raw_endpoint  # noqa: SLF001
+            self.endpoint = disp
         if tunnel_endpoint:
             from ipv8.messaging.anonymization.endpoint import TunnelEndpoint
-            self.endpoint = TunnelEndpoint(self.raw_endpoint)
+            self.endpoint = TunnelEndpoint(self.endpoint)
         self.network = Network()
         self.key = keypool.key(idx if key_index is None else key_index, curve)
         self.my_peer = Peer(self.key, self.raw_endpoint.lan_address)
@@ -55,6 +72,8 @@ class Node:
         for ov in self.overlays:
             await ov.unload()
         self.raw_endpoint.close()
+        if self.raw_endpoint6 is not None:
+            self.raw_endpoint6.close()
 
 
 def know(a: Node, b: Node, overlay_index: int = 0, flags: list[int] | None = None) -> Any:
@@ -83,7 +102,7 @@ def full_mesh(nodes: list[Node], overlay_index: int = 0, flags_of: Any = None) -
 
 
 def tunnel_nodes(net: SimNet, n: int, flags: Any = None, hidden: bool = False, first_idx: int = 0,
-                 tunnel_endpoint_at: tuple = (), **settings: Any) -> list[Node]:
+                 tunnel_endpoint_at: tuple = (), dispatcher: str | None = None, **settings: Any) -> list[Node]:
     """
     ``n`` tunnel nodes, fully meshed as candidates. ``flags``: callable(i) -> set of peer flags (default: all relay
     + both exit flags + speed test).
@@ -94,7 +113,7 @@ def tunnel_nodes(net: SimNet, n: int, flags: Any = None, hidden: bool = False, f
     allf = {PEER_FLAG_RELAY, PEER_FLAG_EXIT_BT, PEER_FLAG_EXIT_IPV8, PEER_FLAG_SPEED_TEST}
     nodes = []
     for i in range(n):
-        node = Node(net, first_idx + i, tunnel_endpoint=i in tunnel_endpoint_at)
+        node = Node(net, first_idx + i, tunnel_endpoint=i in tunnel_endpoint_at, dispatcher=dispatcher)
         fl = set(flags(i)) if flags is not None else set(allf)
         st = dict(settings)
         cls = TunnelCommunity
